@@ -574,6 +574,9 @@ pub uninterp spec fn hspec<S>(s: S, k: KeyId) -> u64;
 /// std's default hasher state: opaque
 #[verifier::external_body]
 pub struct RandomState { x: u64 }
+impl Default for RandomState { #[verifier::external_body] fn default() -> Self { unimplemented!() } }
+impl Clone for RandomState { #[verifier::external_body] fn clone(&self) -> Self { unimplemented!() } }
+impl BuildHasher for RandomState { type Hasher = std::collections::hash_map::DefaultHasher; #[verifier::external_body] fn build_hasher(&self) -> Self::Hasher { unimplemented!() } }
 /// the (mockable) clock: opaque
 #[verifier::external_body]
 pub struct Clock { x: u64 }
@@ -2870,6 +2873,18 @@ where
 //@@ END
 }
 
+impl<K: Hash + Eq, V> Cache<K, V, RandomState> {
+//@@ FN file=src/unsync/cache.rs owner=Cache name=new tags=C17
+    pub fn new(max_capacity: u64) -> /*@+*/(r:/*@-*/ Self/*@+*/)/*@-*/
+        // C17: `new(n)` is the cache the builder gives for `max_capacity(n)` and nothing else: no expiry, no weigher, empty
+        ensures r.max_capacity == Some(max_capacity), r.time_to_live.is_none(), r.time_to_idle.is_none(), r.weigher.is_none(), //@ [C17]
+            r.cache@ == Map::<KeyId, ValueEntry<K, V>>::empty(), r.entry_count == 0, r.weighted_size == 0, r.wf(), //@ [C17,C10]
+    {
+        let build_hasher = RandomState::default();
+        Self::with_everything(Some(max_capacity), None, build_hasher, None, None, None)
+    }
+//@@ END
+}
 // ---------------- src/unsync/iter.rs: iteration (C01, C05, C06 for `iter`) ----------------
 //@@ STRUCT file=src/unsync/iter.rs name=Iter
 #[verifier::reject_recursive_types(K)]
